@@ -58,7 +58,7 @@ Print Assumptions tss_cancel_leaves_no_trace.
 Theorem abs_growth_invariant : forall c s, TInv s ->
   TInv (tss_reserve c s) /\
   forall i, st (tss_reserve c s) i = st s i /\ ab (tss_reserve c s) i = ab s i /\ rb (tss_reserve c s) i = rb s i.
-Proof. intros c s T. destruct (CollFacts.reserve_view c s T) as [A [_ [_ B]]]. exact (conj A B). Qed.
+Proof. exact CollFacts.abs_growth_invariant_l. Qed.
 Print Assumptions abs_growth_invariant.
 
 (* ... and an insertion, whichever slot the store hands out (a fresh one after growth, one freed by the
@@ -158,7 +158,7 @@ Print Assumptions fixed_delta_only_when_ticked.
    (one tick per evaluation time; a clear may be followed by one push; anything else is rejected). *)
 Theorem window_is_lastn : forall n m h, (0 < n)%nat -> wincreasing MIN_DT h ->
   w_values (win_run n m h) = lastn n (spec_whist h []).
-Proof. intros n m h P W. exact (proj1 (WindowFacts.window_is_lastn_gen n m h P W)). Qed.
+Proof. exact WindowFacts.window_is_lastn_l. Qed.
 Print Assumptions window_is_lastn.
 
 (* the ring is correct for every sequence of storage-level pushes, at any head position *)
@@ -169,11 +169,14 @@ Print Assumptions window_push_is_lastn.
 (* the window is (all_)valid exactly when it holds at least min_period elements *)
 Theorem window_valid_iff : forall n m h, (0 < n)%nat -> wincreasing MIN_DT h ->
   w_all_valid (win_run n m h) = (m <=? Nat.min (length (spec_whist h [])) n)%nat.
-Proof.
-  intros n m h P W. destruct (WindowFacts.window_is_lastn_gen n m h P W) as [_ [S M]].
-  unfold w_all_valid. rewrite S, M. reflexivity.
-Qed.
+Proof. exact WindowFacts.window_valid_iff_l. Qed.
 Print Assumptions window_valid_iff.
+
+(* ... i.e. (for min_period <= period) valid exactly once min_period values have been pushed since the last clear *)
+Theorem window_valid_only_once_min_reached : forall n m h, (0 < n)%nat -> (m <= n)%nat -> wincreasing MIN_DT h ->
+  (w_all_valid (win_run n m h) = true <-> (m <= length (spec_whist h []))%nat).
+Proof. exact WindowFacts.window_valid_threshold_l. Qed.
+Print Assumptions window_valid_only_once_min_reached.
 
 (* ================================================================== non-vacuity *)
 (* a history with an add-then-remove of a new element, a remove-then-add of an existing one, a longer
